@@ -161,19 +161,72 @@ def blockDiagSpec (m n : Nat) : List (Nat → Nat → Int) → Nat → Nat → I
     if i < m ∧ j < n then B i j
     else if m ≤ i ∧ n ≤ j then blockDiagSpec m n r (i - m) (j - n) else 0
 
+def prodNat (l : List Nat) : Nat := l.foldl (· * ·) 1
+
+theorem prodNat_cons (n : Nat) (l : List Nat) : prodNat (n :: l) = n * prodNat l := by
+  have h : ∀ (l : List Nat) (a : Nat), l.foldl (· * ·) a = a * l.foldl (· * ·) 1 := by
+    intro l; induction l with
+    | nil => intro a; simp
+    | cons x t iht => intro a; simp only [List.foldl_cons]; rw [iht (a * x), iht (1 * x)]; simp [Nat.mul_assoc]
+  simp only [prodNat, List.foldl_cons]; rw [h]; simp
+
+abbrev Factor := (Nat → Nat → Int) × Nat × Nat
+def rowsOf (fs : List Factor) : List Nat := fs.map (·.2.1)
+def colsOf (fs : List Factor) : List Nat := fs.map (·.2.2)
+
 /-- Kronecker product of a list of factors (entry functions with their sizes), by recursion:
-`(A ⊗ rest)[i, j] = A[i / R, j / C] * rest[i % R, j % C]`. -/
-def kronSpec : List ((Nat → Nat → Int) × Nat × Nat) → Nat → Nat → Int
+`(A ⊗ rest)[i, j] = A[i / R, j / C] * rest[i % R, j % C]` with `R × C` the size of `rest`. -/
+def kronSpec : List Factor → Nat → Nat → Int
   | [], _, _ => 1
   | (A, _, _) :: r, i, j =>
-    let R := (r.map (·.2.1)).foldl (· * ·) 1
-    let C := (r.map (·.2.2)).foldl (· * ·) 1
-    A (i / R) (j / C) * kronSpec r (i % R) (j % C)
+    A (i / prodNat (rowsOf r)) (j / prodNat (colsOf r)) * kronSpec r (i % prodNat (rowsOf r)) (j % prodNat (colsOf r))
 
-/-- what `_get_indices` of the Kronecker operator multiplies together: one entry per factor, at the div/fmod indices -/
-def kronModel (fs : List ((Nat → Nat → Int) × Nat × Nat)) (i j : Nat) : Int :=
-  let ri := kronIdx (fs.map (·.2.1)) i
-  let ci := kronIdx (fs.map (·.2.2)) j
-  ((fs.zip (ri.zip ci)).map fun (f, rc) => f.1 rc.1 rc.2).foldl (· * ·) 1
+/-- one entry per factor, at the given per-factor indices -/
+def kronEntries : List Factor → List Nat → List Nat → List Int
+  | (A, _, _) :: fs, r :: rs, c :: cs => A r c :: kronEntries fs rs cs
+  | _, _, _ => []
+
+/-- the accumulation of `_get_indices`: `res = sub_res * res` over the factors -/
+def mulRev (l : List Int) : Int := l.foldl (fun res a => a * res) 1
+
+/-- what `KroneckerProductLinearOperator._get_indices` returns: every factor's entry at its div/fmod indices,
+multiplied together in the library's order -/
+def kronModel (fs : List Factor) (i j : Nat) : Int :=
+  mulRev (kronEntries fs (kronIdx (rowsOf fs) i) (kronIdx (colsOf fs) j))
+
+theorem mulRev_cons (a : Int) (l : List Int) : mulRev (a :: l) = mulRev l * a := by
+  have h : ∀ (l : List Int) (x : Int), l.foldl (fun res a => a * res) x = l.foldl (fun res a => a * res) 1 * x := by
+    intro l; induction l with
+    | nil => intro x; simp
+    | cons b t iht => intro x; simp only [List.foldl_cons]; rw [iht (b * x), iht (b * 1)]; simp [Int.mul_assoc]
+  simp only [mulRev, List.foldl_cons]; rw [h]; simp
+
+theorem kronIdxGo_cons (n : Nat) (r : List Nat) (i : Nat) (hn : 0 < n) :
+    kronIdxGo (prodNat (n :: r)) (n :: r) i = (i / prodNat r % n) :: kronIdxGo (prodNat r) r i := by
+  have : prodNat (n :: r) / n = prodNat r := by rw [prodNat_cons, Nat.mul_div_cancel_left _ hn]
+  simp [kronIdxGo, this]
+
+/-- the div/fmod chain computes the Kronecker entry — generalised over out-of-range `i, j` (it only sees them modulo the size) -/
+theorem kron_go (fs : List Factor) : ∀ i j, 0 < prodNat (rowsOf fs) → 0 < prodNat (colsOf fs) →
+    mulRev (kronEntries fs (kronIdxGo (prodNat (rowsOf fs)) (rowsOf fs) i) (kronIdxGo (prodNat (colsOf fs)) (colsOf fs) j))
+      = kronSpec fs (i % prodNat (rowsOf fs)) (j % prodNat (colsOf fs)) := by
+  induction fs with
+  | nil => intro i j _ _; simp [kronEntries, kronSpec, mulRev, rowsOf, colsOf, kronIdxGo]
+  | cons f t ih =>
+    intro i j hr hc
+    obtain ⟨A, n, m⟩ := f
+    have hr' : rowsOf ((A, n, m) :: t) = n :: rowsOf t := rfl
+    have hc' : colsOf ((A, n, m) :: t) = m :: colsOf t := rfl
+    rw [hr'] at hr; rw [hc'] at hc; rw [hr', hc']
+    rw [prodNat_cons] at hr hc
+    have hn : 0 < n := Nat.pos_of_ne_zero (by intro h0; simp [h0] at hr)
+    have hm : 0 < m := Nat.pos_of_ne_zero (by intro h0; simp [h0] at hc)
+    have hT : 0 < prodNat (rowsOf t) := Nat.pos_of_ne_zero (by intro h0; simp [h0] at hr)
+    have hU : 0 < prodNat (colsOf t) := Nat.pos_of_ne_zero (by intro h0; simp [h0] at hc)
+    rw [kronIdxGo_cons n _ i hn, kronIdxGo_cons m _ j hm]
+    simp only [kronEntries, kronSpec]
+    rw [mulRev_cons, ih i j hT hU, prodNat_cons, prodNat_cons]
+    rw [Nat.mod_mul_left_div_self, Nat.mod_mul_left_div_self, Nat.mod_mul_left_mod, Nat.mod_mul_left_mod]
+    exact Int.mul_comm _ _
 
 end LinOp.C03
